@@ -11,7 +11,7 @@ CHECKS['C20'] = dict(
          'which posture changes are justified (up only on >= rise consecutive successes, down/withdraw only on >= fall consecutive failures, nothing on a single contrary result) and which are due, '
          'and that every announced route is withdrawn at exit. Each distinct line goes through formated() -> API.process -> dispatch_v6 and dispatch_v4 -> handler -> Configuration -> OutgoingRIB -> '
          'UpdateCollection.messages(); the bytes decoded by vt/ref/wire.py must show on exactly the selected peers exactly the MED, communities, AS path, next hop, local preference and path id '
-         'configured for one of the three states. Exhaustive inside the bound, which is the right level for a six-state counter automaton whose behaviour is periodic well inside length 8.',
+         'configured for one of the three states. Exhaustive inside the bound, which is the right level for a six-state counter automaton whose behaviour is periodic well inside length 8. For the sequences of length <= 4 (thorough 6) the stop request (Ctrl-C or SIGTERM, by configuration) also comes inside the last round: as it begins, right after each line written, and while the helper waits for the acknowledgement of each line (a signal handler that reads the stream its interrupted frame is reading gets the RuntimeError CPython raises). Three configurations sit at the ends of the 32-bit fields (MED, LOCAL_PREF, path identifier, AS number).',
     note='Trusted: vt/ref/hysteresis.py, vt/ref/wire.py, the stub reactor (peers(), processes answers, immediate scheduling). Outside: main() (ip discovery, --start-ip, deaggregation, privileges), '
          'check() itself (subprocess/timeout), real timing of interval/fast-interval, mixed-family ip lists, sequences longer than the bound, rise/fall > 3.',
 )
